@@ -486,6 +486,8 @@ pub fn lane_timing(tier: Tier, seed: u64) -> Vec<Scenario> {
         Dur,
         PathHit,
         PathMiss,
+        /// a wait that alone uses up what is left of the document limit
+        DurOver,
     }
     for script in [false, true] {
         for dl in [DocLim::Absent, DocLim::Zero, DocLim::ShortFront, DocLim::ShortCli] {
@@ -495,7 +497,7 @@ pub fn lane_timing(tier: Tier, seed: u64) -> Vec<Scenario> {
                 }
                 for pos in 0..3usize {
                     for cls in classes {
-                        for wait in [W::None, W::Dur, W::PathHit, W::PathMiss] {
+                        for wait in [W::None, W::Dur, W::PathHit, W::PathMiss, W::DurOver] {
                             if script && wait != W::None {
                                 continue;
                             }
@@ -515,7 +517,11 @@ pub fn lane_timing(tier: Tier, seed: u64) -> Vec<Scenario> {
                                 W::Dur => 1500 * MS,
                                 W::PathHit => 300 * MS, // detached helper touches the path at 300 ms
                                 W::PathMiss => 2 * SEC,
+                                W::DurOver => 6 * SEC,
                             };
+                            if wait == W::DurOver && !matches!(dl, DocLim::ShortFront | DocLim::ShortCli) {
+                                continue;
+                            }
                             let remaining = doc_ns.map(|d| d.saturating_sub(before + wait_ns));
                             let test_ns: Option<u64> = match tl {
                                 TestLim::Absent => None,
@@ -562,6 +568,7 @@ pub fn lane_timing(tier: Tier, seed: u64) -> Vec<Scenario> {
                                         W::Dur => p.cfg.wait = Some(Wait { timeout_ns: wait_ns, path: None }),
                                         W::PathHit => p.cfg.wait = Some(Wait { timeout_ns: 5 * SEC, path: Some("ready.flag".into()) }),
                                         W::PathMiss => p.cfg.wait = Some(Wait { timeout_ns: wait_ns, path: Some("never.flag".into()) }),
+                                        W::DurOver => p.cfg.wait = Some(Wait { timeout_ns: wait_ns, path: None }),
                                     }
                                     p
                                 } else if k + 1 == pos && wait == W::PathHit {
@@ -569,7 +576,8 @@ pub fn lane_timing(tier: Tier, seed: u64) -> Vec<Scenario> {
                                 } else if k < pos {
                                     Plan::new(Fate::Slow { ns: SEC })
                                 } else {
-                                    Plan::new(Fate::Pass)
+                                    // (not instantaneous, so that a limit that silently vanished shows)
+                                    Plan::new(Fate::Slow { ns: 700 * MS })
                                 };
                                 let t = g.test(&plan, &mut sim.programs);
                                 if k + 1 == pos && wait == W::PathHit {
